@@ -1,5 +1,6 @@
 pub mod c07;
 pub mod c08;
+pub mod c10close;
 pub mod c13;
 pub mod c15;
 pub mod c16;
